@@ -25,7 +25,7 @@ def gen_structured(rng, n):
         ncat = rng.randint(0, 4)
         pool = words[:]
         for ci in range(ncat):
-            cname = rng.choice(["produce", "dairy", "a", "b", " c ", "d|e", "", "x]y", "[w"]) if rng.random() < 0.8 else rng.choice(["produce", "a"])
+            cname = rng.choice(["produce", "dairy", "a", "b", " c ", "d|e", "", "x]y", "[w", "other", "Other", "default", "uncategorized"]) if rng.random() < 0.8 else rng.choice(["produce", "a"])
             lines.append(rng.choice(blanks) + "[" + cname + "]" + rng.choice(blanks) + (rng.choice(["", " // c", "//", " / x"]) if rng.random() < 0.2 else ""))
             for _ in range(rng.randint(0, 3)):
                 k = rng.randint(1, 3)
@@ -66,6 +66,12 @@ def gen_pairs():
             out.append("[c]\nx|%sx%s\n" % (a, b))
             out.append("[c]%s// note\nx\n[d]%s//\ny\n" % (a, b))
             out.append("[c]\nx%s// n|m\n%sy|z // k\n" % (a, b))
+    # ingredient lines before the first header, alone and followed by headers with "default-looking" names
+    for lead in ["a", "x|y", " a ", "a // c"]:
+        for cat in ["other", "Other", "default", "", "a", "misc"]:
+            out.append("%s\n[%s]\n" % (lead, cat))
+            out.append("%s\n[%s]\nz\n[%s]\n" % (lead, cat, cat))
+            out.append("%s\n[%s]" % (lead, cat))
     for line in ["|tuna|atun", " | x", "tuna|", "tuna||atun", "||", "| |x", "x| |", "\u00a0|x"]:
         out.append("[c]\n%s\n" % line)
         out.append("[c]\n%s\n[d]\nq|%s\n" % (line, line.strip("|") or "r"))
